@@ -39,17 +39,48 @@ TRACED = ("flexstack/geonet/router.py", "flexstack/geonet/location_table.py")
 LOCK_NAMES = ["sequence_number_lock", "_cbf_lock", "_ls_lock", "ego_position_vector_lock"]
 
 
-def fresh_router(alg="CBF", ls_max=1, mid=0x0A0B0C0D0E01):
+class ObsTimer(stack.FakeTimer):
+    """FakeTimer that reports into the event list of the current world: its construction and the COMPLETION of cancel()"""
+    events = None
+
+    def __init__(self, interval, function, args=None, kwargs=None):
+        super().__init__(interval, function, args, kwargs)
+        if ObsTimer.events is not None:
+            ObsTimer.events.append(("timer", self))
+
+    def cancel(self):
+        super().cancel()
+        if ObsTimer.events is not None:
+            ObsTimer.events.append(("cancelled", self))
+
+
+class ObsLL(stack.CaptureLL):
+    """capturing link layer; every packet handed to send() is also an event of the world (same total order as the timers)"""
+
+    def __init__(self, events):
+        super().__init__()
+        self.events = events
+
+    def send(self, packet: bytes):
+        super().send(packet)
+        self.events.append(("sent", bytes(packet)))
+
+
+def fresh_router(alg="CBF", ls_max=1, mid=0x0A0B0C0D0E01, mib_kw=None):
     import flexstack.geonet.router as r
     import flexstack.geonet.location_table as lt
     r.Lock = SchedLock
     lt.Lock = SchedLock
     lt.RLock = SchedRLock
     stack.FakeTimer.reset()
-    ll = stack.CaptureLL()
+    events = []
+    ll = ObsLL(events)
     from flexstack.geonet.mib import AreaForwardingAlgorithm
-    router = stack.make_router(ll, local_mid=mid, ego=(413800000, 21100000), mib_kw=dict(
-        itsGnAreaForwardingAlgorithm=getattr(AreaForwardingAlgorithm, alg), itsGnLocationServiceMaxRetrans=ls_max))
+    kw = dict(itsGnAreaForwardingAlgorithm=getattr(AreaForwardingAlgorithm, alg), itsGnLocationServiceMaxRetrans=ls_max)
+    kw.update(mib_kw or {})
+    router = stack.make_router(ll, local_mid=mid, ego=(413800000, 21100000), mib_kw=kw)
+    r.Timer = ObsTimer              # make_router installed stack.FakeTimer; ObsTimer is the same timer plus the event reports
+    ObsTimer.events = events
     for n in LOCK_NAMES:
         getattr(router, n).name = n
     router.location_table.loc_t_lock.name = "loc_t_lock"
@@ -63,6 +94,8 @@ def restore_locks():
     r.Lock = threading.Lock
     lt.Lock = threading.Lock
     lt.RLock = threading.RLock
+    r.Timer = stack.FakeTimer
+    ObsTimer.events = None
 
 
 def run_scenario(ctx, name, make_world, bound, max_runs, random_runs):
@@ -166,9 +199,180 @@ def world_cbf():
                 bad.append(("cbf_sent_after_cancel", "the buffered packet was transmitted after its cancellation had completed", n))
             if [k for k in router._cbf_buffer if k[1] == 7]:
                 bad.append(("cbf_left_buffered", "the cancelled / expired packet is still in the buffer", None))
+            have = {b[0] for b in bad}
+            bad += [b for b in cbf_oracle(ll.events) if b[0] not in have]
             return bad
         return fns, check
     return make
+
+
+# ---- oracle for the contention-based-forwarding clause, on the observed events only -------------------------------
+def wire_key(pkt):
+    """(source GN address, sequence number) of a GeoBroadcast / GeoAnycast packet, read from the wire layout of
+    EN 302 636-4-1 (basic 4 + common 8 octets, then SN, reserved, source long position vector)"""
+    if not isinstance(pkt, (bytes, bytearray)) or len(pkt) < 40 or (pkt[5] >> 4) not in (3, 4):
+        return None
+    return (bytes(pkt[16:24]), bytes(pkt[12:14]))
+
+
+def timer_key(t):
+    """the packet a contention timer stands for: the GN-PDU among its arguments"""
+    return next((wire_key(a) for a in t.args if wire_key(a) is not None), None)
+
+
+def cbf_oracle(events):
+    """'each packet buffered for contention-based forwarding is transmitted at most once and never after its cancellation
+    has completed', on the total order of the world's events (one thread runs at a time): a buffering = the construction
+    of a contention timer for the packet; its cancellation has completed when cancel() of that timer has returned.  Every
+    transmission of a packet that was buffered at all must be covered by a buffering of its own that started before the
+    transmission, was not cancelled before it and covers no other transmission (the buffering that is cancelled soonest is
+    used up first, which is optimal).  Transmissions of packets that were never buffered are not the subject of the clause."""
+    inc, by_timer = {}, {}
+    for i, (what, x) in enumerate(events):
+        if what == "timer" and timer_key(x) is not None:
+            d = by_timer[id(x)] = dict(created=i, cancelled=None, sent=None)
+            inc.setdefault(timer_key(x), []).append(d)
+        elif what == "cancelled" and id(x) in by_timer and by_timer[id(x)]["cancelled"] is None:
+            by_timer[id(x)]["cancelled"] = i
+    bad = []
+    for i, (what, x) in enumerate(events):
+        k = wire_key(x) if what == "sent" else None
+        if k is None or k not in inc:
+            continue
+        started = [d for d in inc[k] if d["created"] < i]
+        live = [d for d in started if d["sent"] is None and (d["cancelled"] is None or d["cancelled"] > i)]
+        obs = {"source": k[0].hex(), "sn": int.from_bytes(k[1], "big"), "event": i,
+               "history_of_packet": [w for (w, y) in events[:i + 1] if (wire_key(y) if w == "sent" else timer_key(y)) == k]}
+        if live:
+            min(live, key=lambda d: (d["cancelled"] is None, d["cancelled"] or 0))["sent"] = i
+        elif any(d["sent"] is None for d in started):
+            bad.append(("cbf_sent_after_cancel", "a packet buffered for contention-based forwarding was transmitted after its "
+                        "cancellation had completed", obs))
+        elif started:
+            bad.append(("cbf_sent_twice", "a packet buffered for contention-based forwarding was transmitted twice", obs))
+    return bad
+
+
+def fire_rest():
+    """let every contention timer that is still armed expire (in order of expiry, virtual clock untouched)"""
+    for t in sorted(stack.FakeTimer.pending(), key=lambda t: (t.due, t.id)):
+        t.fire()
+
+
+CBF_THIRD = ("none", "fresh", "dup_same", "dup_other")
+
+
+def world_cbf_dup(dpl_len=8, n=9, j=0, stale=False, third="fresh", again=True, gap_ms=2, sn0=7, rhl=2, shape=0):
+    """A copy of a packet that is still contending is overheard.  Which of the two cancellation paths of the router it takes
+    depends on whether duplicate packet detection still knows the packet, so the world ranges over both:
+    set-up (sequential): station S sends a burst of n GeoBroadcast packets (SN sn0.., gap_ms apart, i.e. inside the contention
+    window); all are buffered.  The duplicate packet list holds dpl_len (MIB itsGnDPLLength, default 8) sequence numbers per
+    source, so packet j has left it iff n-1-j >= dpl_len; with stale=True the clock of S is behind by more than
+    itsGnLifetimeLocTE, S's location table entry (and with it the list) never survives until the next packet.
+    concurrent: [0] the copy of packet j is overheard (one hop further: rhl lower) || [1] the timer of packet j expires ||
+    [2] third: another reception (fresh packet of S / second copy of j / copy of another contending packet) ||
+    [3] again: the timer object of packet j fires once more.  Afterwards every timer still armed expires."""
+    def make():
+        router, ll = fresh_router("CBF", mib_kw=dict(itsGnDPLLength=dpl_len))
+        src = (0, 5, 0x0A0B0C0D2222)
+        now = stack.VCLOCK.its_ms()
+        router.gn_data_indicate(stack.beacon_bytes((0, 5, 0x0A0B0C0D3333), now % 2 ** 32, 413800010, 21100010))
+        base = now - (router.mib.itsGnLifetimeLocTE * 1000 + 5000 if stale else 0)
+        ego = router.ego_position_vector
+
+        def pkt(i, hops):
+            return stack.gbc_bytes(src, (sn0 + i) % 65536, (base + i * gap_ms) % 2 ** 32, ego.latitude + 50, ego.longitude + 50,
+                                   (ego.latitude, ego.longitude, 500, 500, 0), b"\x07\xd2\x00\x00cbf%d" % i, hst=shape,
+                                   rhl=hops, mhl=10)
+        burst = [pkt(i, rhl + 1) for i in range(n)]
+        for p in burst:
+            router.gn_data_indicate(p)
+        kj = wire_key(burst[j])
+        timers = [t for t in stack.FakeTimer.pending() if timer_key(t) == kj]
+        set_up_ok = len(stack.FakeTimer.pending()) == n and len(timers) == 1 and not ll.sent
+        fns = [lambda: router.gn_data_indicate(pkt(j, rhl)),
+               lambda: [t.function(*t.args) for t in timers]]
+        if third == "fresh":
+            fns.append(lambda: router.gn_data_indicate(pkt(n, rhl + 1)))
+        elif third == "dup_same":
+            fns.append(lambda: router.gn_data_indicate(pkt(j, rhl)))
+        elif third == "dup_other":
+            fns.append(lambda: router.gn_data_indicate(pkt((j + 1) % n, rhl)))
+        if again:
+            fns.append(lambda: [t.function(*t.args) for t in timers])
+
+        def check(sched, log):
+            bad = []
+            if not set_up_ok:
+                bad.append(("cbf_setup", "the burst was not put into contention (scenario does not exercise the clause)",
+                            [len(stack.FakeTimer.pending()), len(ll.sent)]))
+            fire_rest()
+            bad += cbf_oracle(ll.events)
+            if router._cbf_buffer:
+                bad.append(("cbf_left_buffered", "packets are still in the buffer after every contention timer has expired",
+                            len(router._cbf_buffer)))
+            return bad
+        return fns, check
+    return make
+
+
+def cbf_dup_kind(c):
+    """how the overheard copy meets the router (from the configuration, by the rules of annex A.2 / clause 8.1.3)"""
+    if c.get("stale"):
+        return "entry_expired"
+    return "dpl_rolled" if c["n"] - 1 - c["j"] >= c["dpl_len"] else "dpl_hit"
+
+
+def cbf_dup_configs(rng, n_random):
+    """boundary grid over (list length, burst length, which packet is overheard again) - the copy is exactly at / one before /
+    one after the point where it leaves the duplicate packet list - and seeded random configurations"""
+    out = []
+    for L in (1, 2, 3, 8):
+        for n in (1, L, L + 1, L + 2):
+            for j in sorted({0, n - 1, n - 1 - L, n - L} & set(range(n))):
+                out.append(dict(dpl_len=L, n=n, j=j, stale=False))
+    out += [dict(dpl_len=8, n=n, j=0, stale=True) for n in (1, 2)]
+    for i, c in enumerate(out):
+        c.update(third=CBF_THIRD[i % 4] if (c["n"] > 1 or i % 4 != 3) else "fresh", again=i % 3 != 0, gap_ms=1 + i % 7,
+                 sn0=(7, 65535 - i % 5, 1000 + i)[i % 3], rhl=2 + i % 2, shape=i % 3)
+    for _ in range(n_random):
+        L = rng.choice((1, 2, 4, 8, 8, 8, 16))
+        n = rng.randint(1, L + 3) if rng.random() < 0.5 else rng.randint(L + 1, L + 4)
+        near = sorted({0, n - 1 - L, n - L} & set(range(n)))          # around the point where the copy leaves the list
+        c = dict(dpl_len=L, n=n, j=rng.choice(near) if rng.random() < 0.5 else rng.randrange(n), stale=rng.random() < 0.15, third=rng.choice(CBF_THIRD),
+                 again=rng.random() < 0.6, gap_ms=rng.randint(1, 8), sn0=rng.choice((rng.randrange(65536), 65536 - rng.randint(1, n))),
+                 rhl=rng.randint(2, 4), shape=rng.randrange(3))
+        if c["third"] == "dup_other" and n == 1:
+            c["third"] = "dup_same"
+        out.append(c)
+    return out
+
+
+def run_cbf_dup_serial(ctx, n_random, orders_per_config):
+    """every configuration with the actors run one after the other (each such order IS an interleaving of the property's
+    quantifier: no preemption); the orders: as listed, reversed, and seeded random permutations"""
+    for c in cbf_dup_configs(ctx.rng, n_random):
+        k = 2 + (c["third"] != "none") + bool(c["again"])
+        orders = [list(range(k)), list(range(k))[::-1]]
+        while len(orders) < orders_per_config:
+            o = list(range(k))
+            ctx.rng.shuffle(o)
+            if o not in orders:
+                orders.append(o)
+            elif k <= 2:
+                break
+        for order in orders:
+            fns, check = world_cbf_dup(**c)()
+            inp = {"scenario": "cbf_dup_serial", "config": c, "order": order}
+            for a in order:
+                try:
+                    fns[a]()
+                except Exception as e:          # noqa: BLE001 - "no thread fails"
+                    ctx.property_failure("thread_failed", inp, f"actor {a} raised", None, f"{type(e).__name__}: {e}")
+            for cls, detail, obs in check(order, []):
+                ctx.property_failure(cls, inp, detail, None, obs)
+            ctx.count(1, "serial_cbf_dup_" + cbf_dup_kind(c))
+            ctx.nontriv(("cbf_dup_serial", json.dumps(c, sort_keys=True), tuple(order)))
 
 
 def world_ego():
@@ -286,7 +490,11 @@ def world_mixed():
 def run(ctx):
     ctx.rule = ("interleavings of the real Router at source-line granularity (settrace scheduler, cooperative locks): "
                 "scenario sn (2-3 threads x 1-3 get_sequence_number), cbf (duplicate overheard || timer expiry || fresh packet || "
-                "stale timer), ego (refresh x3 || SHB x2 || beacon x2), ls (1-3 unicast requests || LS reply [|| retransmit + "
+                "stale timer), cbf_dup (a copy of a packet that is still contending is overheard after a burst of 1..L+3 packets of its "
+                "source, L = itsGnDPLLength in 1..16, so that the copy is still in / has just left / has long left the duplicate "
+                "packet list, or the source's entry has expired; || its timer expiry || a further reception || stale timer: boundary "
+                "grid + seeded random configurations with the actors in 3 (thorough 5) serial orders, and two of the configurations "
+                "under the line-level scheduler), ego (refresh x3 || SHB x2 || beacon x2), ls (1-3 unicast requests || LS reply [|| retransmit + "
                 "give-up]), mixed (2 originators || reception || ego refresh); systematically all schedules with at most 2 "
                 "preemptions (bounded number of runs per scenario), then seeded random schedules; a schedule is non-trivial and "
                 "distinct by its thread-id sequence")
@@ -297,6 +505,9 @@ def run(ctx):
         plan = [("sn_2x2", world_sn(2, 2), 2, 150 if quick else 3000, 40 if quick else 600),
                 ("sn_3x1", world_sn(3, 1), 2, 120 if quick else 3000, 30 if quick else 600),
                 ("cbf", world_cbf(), 2, 250 if quick else 6000, 80 if quick else 1500),
+                ("cbf_dup_ring", world_cbf_dup(8, 9, 0, third="fresh", again=True), 2, 60 if quick else 2500, 20 if quick else 600),
+                ("cbf_dup_expired", world_cbf_dup(8, 1, 0, stale=True, third="dup_same", again=True), 2, 40 if quick else 2500,
+                 15 if quick else 600),
                 ("ego", world_ego(), 2, 120 if quick else 3000, 40 if quick else 800),
                 ("ls_2", world_ls(2, False), 2, 200 if quick else 5000, 60 if quick else 1200),
                 ("ls_2_retry", world_ls(2, True), 2, 200 if quick else 5000, 60 if quick else 1200),
@@ -304,6 +515,7 @@ def run(ctx):
                 ("mixed", world_mixed(), 1 if quick else 2, 150 if quick else 5000, 50 if quick else 1200)]
         if not quick:
             plan += [("sn_3x3", world_sn(3, 3), 2, 4000, 800), ("ls_3_retry", world_ls(3, True), 2, 5000, 1200)]
+        run_cbf_dup_serial(ctx, 120 if quick else 3000, 3 if quick else 5)
         for name, mk, bound, max_runs, rnd in plan:
             run_scenario(ctx, name, mk, bound, max_runs, rnd)
         if not getattr(ctx, "proof_ok", True) and not ctx.failures:
